@@ -100,7 +100,7 @@ def dip_text(draw):
         lines.append(f"a = 3 K")
     # afterwards the returned environment's units are used by a numerical solver, inside a with block or as a plain object
     return {"lines": lines, "mode": mode, "nunits": len(names), "names": names,
-            "solver": draw(st.sampled_from([None, "with", "plain", "plain"]))}
+            "solver": draw(st.sampled_from([None, "with", "plain", "plain", "raise", "equal", "equal_raise"]))}
 
 
 op = st.one_of(
@@ -399,11 +399,21 @@ def _check(case, v):
                 return
             if raised is None and spec.get("solver") and spec.get("names"):
                 from scinumtools.dip.solvers import NumericalSolver
-                expr = f"1 [{spec['names'][0]}] + 2 [{spec['names'][0]}]"
+                u0 = spec["names"][0]
+                expr = f"1 [{u0}] + 2 [{u0}]"
                 try:
                     if spec["solver"] == "with":
                         with NumericalSolver(env2) as slv:
                             slv.solve(expr)
+                    elif spec["solver"] == "raise":
+                        with NumericalSolver(env2) as slv:
+                            slv.solve(expr + " + 1 K + 1 cd")          # refused: dimensions differ
+                    elif spec["solver"] == "equal":
+                        with NumericalSolver(env2) as slv:
+                            slv.equal(f"3 [{u0}]", expr)
+                    elif spec["solver"] == "equal_raise":
+                        with NumericalSolver(env2) as slv:
+                            slv.equal(f"3 [{u0}]", "1 K * 1 cd")       # comparison of other dimensions raises
                     else:
                         NumericalSolver(env2).solve(expr)
                 except Exception:
